@@ -20,8 +20,24 @@ type verifC20 struct {
 	w *verifWorld
 }
 
+// anomaly budget: every deviation from the healthy default spends one unit, so the
+// sweep covers all combinations of up to `anomalies` simultaneous anomalies.
+var verifAnomalyBudget int
+
+func anom(label string, n int) int {
+	if verifAnomalyBudget <= 0 {
+		return 0
+	}
+	v := verifnd.Choose(label, n)
+	if v != 0 {
+		verifAnomalyBudget--
+	}
+	return v
+}
+
 // verifC20World: 3 HA hosts + optionally one cascade replica whose stream_from may dangle.
 func verifC20World() *verifC20 {
+	verifAnomalyBudget = verifnd.Param("anomalies", 2)
 	ha := []string{"h1", "h2", "h3"}
 	casc := map[string]string{}
 	switch verifnd.Choose("cascade", verifnd.Param("cascade_kinds", 4)) {
@@ -33,7 +49,7 @@ func verifC20World() *verifC20 {
 		casc["c1"] = ""
 	}
 	cfg := verifConfig("h2")
-	cfg.ResetupCrashedHosts = verifnd.Choose("cfg.resetup_crashed", 2) == 1
+	cfg.ResetupCrashedHosts = true
 	cfg.ManagerSwitchover = verifnd.Param("manager_switchover", 0) == 1
 	verifnd.ConcreteClockStep = 1_000_000
 	verifnd.MaxSleeps = 2
@@ -44,23 +60,23 @@ func verifC20World() *verifC20 {
 		s.ReadOnly, s.SuperRO, s.IsReplica, s.Source, s.IORunning, s.SQLRunning = true, true, true, "h1", true, true
 		s.LagValid = true
 		s.Executed = 1
-		if verifnd.Choose("cascade.repl."+h, 2) == 1 {
+		if anom("cascade.repl."+h, 2) == 1 {
 			s.IORunning, s.SQLRunning = false, false
 		}
 	}
 	w.syncGTIDOwners()
 	// some servers may be down
 	for _, h := range w.fleet.Hosts {
-		if verifnd.Choose("dead."+h, 2) == 1 {
+		if anom("dead."+h, 2) == 1 {
 			w.fleet.Servers[h].Alive = false
 		}
 	}
-	verifDaemonState = &nodestate.DaemonState{CrashRecovery: verifnd.Choose("daemon.crash_recovery", 2) == 1}
+	verifDaemonState = &nodestate.DaemonState{CrashRecovery: anom("daemon.crash_recovery", 2) == 1}
 	c := &verifC20{w: w}
 	// health records: as observed / absent / present but empty (lacking every optional part)
 	cs := w.observe()
 	for _, h := range w.fleet.Hosts {
-		switch verifnd.Choose("health."+h, 3) {
+		switch anom("health."+h, 3) {
 		case 0:
 			w.dcs.seed(dcs.JoinPath(pathHealthPrefix, h), cs[h])
 		case 1:
@@ -69,7 +85,7 @@ func verifC20World() *verifC20 {
 		}
 	}
 	// recorded master: a registered host, a host that is no longer registered, or absent
-	switch verifnd.Choose("master-key", 4) {
+	switch anom("master-key", 4) {
 	case 0:
 	case 1:
 		w.dcs.seed(pathMasterNode, "ghost")
@@ -79,7 +95,7 @@ func verifC20World() *verifC20 {
 		w.dcs.seed(pathMasterNode, "h3")
 	}
 	// published list
-	switch verifnd.Choose("active-list", 4) {
+	switch anom("active-list", 4) {
 	case 0:
 	case 1:
 		w.dcs.seed(pathActiveNodes, []string{"ghost", "h1"})
@@ -89,14 +105,14 @@ func verifC20World() *verifC20 {
 		w.dcs.seed(pathActiveNodes, []string{})
 	}
 	// optimisation registry naming an unknown / a known host
-	switch verifnd.Choose("opt-registry", 3) {
+	switch anom("opt-registry", 3) {
 	case 1:
 		w.dcs.seed("optimization_nodes/ghost", struct{}{})
 	case 2:
 		w.dcs.seed("optimization_nodes/h3", struct{}{})
 	}
 	// recovery marks
-	switch verifnd.Choose("recovery", 3) {
+	switch anom("recovery", 3) {
 	case 1:
 		w.dcs.seed(pathRecovery+"/ghost", nil)
 	case 2:
@@ -120,7 +136,7 @@ func (d *verifDCS) unseedPath(path string) {
 func H_C20_manager() {
 	c := verifC20World()
 	w := c.w
-	switch verifnd.Choose("request", verifnd.Param("requests", 5)) {
+	switch anom("request", verifnd.Param("requests", 5)) {
 	case 1:
 		w.dcs.seed(pathCurrentSwitch, &Switchover{From: "ghost", Cause: CauseManual, MasterTransition: SwitchoverTransition, InitiatedBy: "op", InitiatedAt: verifnd.Now()})
 	case 2:
@@ -130,7 +146,7 @@ func H_C20_manager() {
 	case 4:
 		w.dcs.seed(pathCurrentSwitch, &Switchover{To: "h3", Cause: CauseWorker, InitiatedBy: "w"})
 	}
-	switch verifnd.Choose("maintenance", 3) {
+	switch anom("maintenance", 3) {
 	case 1:
 		w.dcs.seed(pathMaintenance, &Maintenance{InitiatedBy: "op", Mode: LightMode})
 	case 2:
@@ -223,3 +239,6 @@ func H_C20_background() {
 		verifnd.Reach("C20.bg.hosts")
 	}
 }
+
+// H_C20_manager_faults: the manager iteration with one failing MySQL call anywhere.
+func H_C20_manager_faults() { H_C20_manager() }
